@@ -1,6 +1,7 @@
 package main
 
 import (
+	"encoding/json"
 	"fmt"
 	"sort"
 	"strings"
@@ -44,9 +45,51 @@ func runFldOps(spec *Sx, ops []*Sx) []string {
 			out = append(out, "ok")
 		case "note":
 			out = append(out, "ok")
+		case "json":
+			j, err := json.Marshal(f)
+			if err != nil {
+				out = append(out, "err")
+			} else {
+				out = append(out, xh(j))
+			}
+		case "fromjson":
+			if err := json.Unmarshal(renderJdoc(op.List[1]), f); err != nil {
+				out = append(out, "err")
+			} else {
+				out = append(out, "ok")
+			}
+		case "unsetp":
+			if c, ok := f.(*field.Composite); ok {
+				if err := c.UnsetSubfields(string(op.List[1].Hex())); err != nil {
+					out = append(out, "err")
+				} else {
+					out = append(out, "ok")
+				}
+			} else {
+				out = append(out, "err")
+			}
 		}
 	}
 	return out
+}
+
+// renderJdoc prints a parsed-document term as JSON text: (js x..) (jn z) (jo ((xkey doc)...))
+func renderJdoc(d *Sx) []byte {
+	switch d.Head() {
+	case "js":
+		b, _ := json.Marshal(string(d.List[1].Hex()))
+		return b
+	case "jn":
+		return []byte(d.List[1].Atom)
+	case "jo":
+		var parts []string
+		for _, kv := range d.List[1].List {
+			k, _ := json.Marshal(string(kv.List[0].Hex()))
+			parts = append(parts, string(k)+":"+string(renderJdoc(kv.List[1])))
+		}
+		return []byte("{" + strings.Join(parts, ",") + "}")
+	}
+	return []byte("null")
 }
 
 func showPresent(m *iso8583.Message) string {
@@ -119,6 +162,35 @@ func runMsgOps(spec *Sx, ops []*Sx) []string {
 			out = append(out, xh(b))
 		case "note":
 			out = append(out, "ok")
+		case "json":
+			j, err := m.MarshalJSON()
+			if err != nil {
+				out = append(out, "err")
+			} else {
+				out = append(out, "ok "+xh(j))
+			}
+		case "fromjson":
+			if err := m.UnmarshalJSON(renderJdoc(op.List[1])); err != nil {
+				out = append(out, "err")
+			} else {
+				out = append(out, "ok")
+			}
+		case "unsetp":
+			if err := m.UnsetFields(string(op.List[1].Hex())); err != nil {
+				out = append(out, "err")
+			} else {
+				out = append(out, "ok")
+			}
+		case "clone", "cloneorig":
+			c, err := m.Clone()
+			if err != nil {
+				out = append(out, "err")
+			} else {
+				out = append(out, "ok "+showPresent(c))
+				if op.Head() == "clone" {
+					m = c
+				}
+			}
 		}
 	}
 	return out
